@@ -4,6 +4,7 @@ package sim
 
 import (
 	"fmt"
+	"os"
 	"math/rand"
 	"sort"
 	"strings"
@@ -111,6 +112,9 @@ type World struct {
 
 var worldSeq atomic.Int64
 
+// Trace prints every event to stderr as it is recorded (PCVERIF_TRACE=1).
+var Trace = os.Getenv("PCVERIF_TRACE") != ""
+
 func NewWorld(seed int64) *World {
 	w := &World{
 		ID:         int(worldSeq.Add(1)),
@@ -144,6 +148,9 @@ func (w *World) recLocked(e Event) int {
 	e.Seq = len(w.events)
 	e.T = int64(time.Since(w.start))
 	w.events = append(w.events, e)
+	if Trace {
+		fmt.Fprintln(os.Stderr, "TRACE", FormatEvents([]Event{e})[0])
+	}
 	w.lastEvent.Store(time.Now().UnixNano())
 	w.cond.Broadcast()
 	return e.Seq
@@ -305,6 +312,20 @@ func (v *WorldView) Has(kind, proc, str string) bool {
 }
 func (v *WorldView) HoldActive(tag string) bool { return v.w.holdActive[tag] }
 
+// AllInstancesFinished: every instance goroutine reached runner.afterRun.
+func (v *WorldView) AllInstancesFinished() bool {
+	inst, fin := 0, 0
+	for i := range v.w.events {
+		e := &v.w.events[i]
+		if e.Kind == EvInstance {
+			inst++
+		} else if e.Kind == EvYield && e.Str == "runner.afterRun" && e.Str2 == "pass" {
+			fin++
+		}
+	}
+	return fin >= inst
+}
+
 // ---------------------------------------------------------------- gates
 
 // Release opens a named gate (e.g. "exit:<proc>") and wakes waiters.
@@ -431,7 +452,7 @@ func (w *World) Yield(point, name string) {
 
 // alwaysRecorded yield points are logged on every pass (they are gate /
 // ordering events for the oracles).
-var alwaysRecorded = map[string]bool{"runner.released": true, "shutdown.enter": true, "shutdown.return": true}
+var alwaysRecorded = map[string]bool{"runner.released": true, "shutdown.enter": true, "shutdown.return": true, "runner.afterRun": true}
 
 // AliveInfo describes one live simulated command.
 type AliveInfo struct {
